@@ -297,14 +297,18 @@ var c08Scanners = map[string][]string{
 
 // runC08Scanners: (R2s) a scanner's chain loop is left towards a plain success return only by the end-of-chain test;
 // (R2p) consumers are called only after the scanner succeeded.
-func runC08Scanners(c *Ctx, gs *guardSet) {
+func runC08Scanners(c *Ctx, gs *guardSet) { runScannersAs(c, gs, "C08") }
+
+// runScannersAs runs the scanner / consumer rules under another property's rule ids (C36 shares them: reading
+// bookmarks validates the outline tree first, and that scan is what bounds the unguarded outline walks).
+func runScannersAs(c *Ctx, gs *guardSet, prop string) {
 	p, r := c.P, c.R
 	cg := c.CG()
 	deref := derefReachers(p, cg)
 	for sid, consumers := range c08Scanners {
 		fn := p.funcByID[sid]
 		if fn == nil {
-			r.Bad("C08.R2s", sid, "scanner", "", "scanner function not found")
+			r.Bad(prop+".R2s", sid, "scanner", "", "scanner function not found")
 			continue
 		}
 		n := 0
@@ -336,18 +340,18 @@ func runC08Scanners(c *Ctx, gs *guardSet) {
 			sort.Strings(bad)
 			pos := p.Fset.Position(cl.phi.Pos()).String()
 			if len(bad) > 0 {
-				r.Bad("C08.R2s", sid, "scanner loop on "+cl.phi.Comment, pos, "the scan can stop with success before the end of the chain (exit at "+strings.Join(bad, ", ")+"): items behind that point are never checked for cycles, but consumers follow the chain to its end")
+				r.Bad(prop+".R2s", sid, "scanner loop on "+cl.phi.Comment, pos, "the scan can stop with success before the end of the chain (exit at "+strings.Join(bad, ", ")+"): items behind that point are never checked for cycles, but consumers follow the chain to its end")
 			} else {
-				r.OK("C08.R2s", sid, "scanner loop on "+cl.phi.Comment, pos, "the loop is left only by the end-of-chain test, an error, or a repair handler's result", true)
+				r.OK(prop+".R2s", sid, "scanner loop on "+cl.phi.Comment, pos, "the loop is left only by the end-of-chain test, an error, or a repair handler's result", true)
 			}
 		}
 		if n == 0 {
-			r.Bad("C08.R2s", sid, "scanner", p.Fset.Position(fn.Pos()).String(), "no chain loop found in scanner")
+			r.Bad(prop+".R2s", sid, "scanner", p.Fset.Position(fn.Pos()).String(), "no chain loop found in scanner")
 		}
 		for _, cid := range consumers {
 			cons := p.funcByID[cid]
 			if cons == nil {
-				r.Bad("C08.R2p", cid, "consumer", "", "consumer function not found")
+				r.Bad(prop+".R2p", cid, "consumer", "", "consumer function not found")
 				continue
 			}
 			for _, caller := range cg.In[cons] {
@@ -376,9 +380,9 @@ func runC08Scanners(c *Ctx, gs *guardSet) {
 					}
 					pos := p.Fset.Position(call.Pos()).String()
 					if ff.Holds(i, "scanned") {
-						r.OK("C08.R2p", FuncID(caller), "call "+cons.Name(), pos, "reached only after "+fn.Name()+" returned nil", true)
+						r.OK(prop+".R2p", FuncID(caller), "call "+cons.Name(), pos, "reached only after "+fn.Name()+" returned nil", true)
 					} else {
-						r.Bad("C08.R2p", FuncID(caller), "call "+cons.Name(), pos, cons.Name()+" follows item chains without a guard of its own and is reachable here without a successful "+fn.Name()+" before it")
+						r.Bad(prop+".R2p", FuncID(caller), "call "+cons.Name(), pos, cons.Name()+" follows item chains without a guard of its own and is reachable here without a successful "+fn.Name()+" before it")
 					}
 				})
 			}
